@@ -132,6 +132,13 @@ fn main() {
             let from: u64 = arg_after(&args, "--from").and_then(|s| s.parse().ok()).unwrap_or(0);
             let only: Option<u64> = arg_after(&args, "--only").and_then(|s| s.parse().ok());
             let mut w = Worker::from_args(tier, i, n, from, only);
+            // every check runs under a watchdog: a case that does not come back within a minute of processor
+            // time is reported as a hang (checks with slower or faster cases set limits of their own)
+            w.set_case_limit_ms(60_000);
+            if std::env::var("DSMC_DESCRIBE").is_ok() {
+                // print the description of every case before it runs (used to name a case by its index)
+                w.risky = true;
+            }
             // a panic outside a guarded call is a defect of the harness: say where, then die
             if std::panic::catch_unwind(std::panic::AssertUnwindSafe(|| (p.worker)(&mut w))).is_err() {
                 eprintln!("harness panic in worker {} of {}: {}", shard, p.id, last_panic());
